@@ -220,6 +220,7 @@ func Build(s LibSpec) glyf.Glyphs {
 	rng := rand.New(rand.NewSource(s.Seed))
 	var gg glyf.Glyphs
 	total := 0
+	withInstr := 0
 	keep := map[int]bool{}
 	if s.Sparse > 0 {
 		keep[0], keep[s.N-1] = true, true
@@ -248,9 +249,21 @@ func Build(s LibSpec) glyf.Glyphs {
 			}
 			g = fonts.CompositeTT(rng, ids, funit.Rect16{LLx: -300, LLy: funit.Int16(-rng.Intn(500)), URx: 1200, URy: 1200})
 			if rng.Intn(2) == 0 {
+				// instructions; the flag goes alternately on the first record only, on the last
+				// only, and on every record (a reader must find the block in all three cases)
 				cg := g.Data.(glyf.CompositeGlyph)
-				cg.Components[len(cg.Components)-1].Flags |= glyf.FlagWeHaveInstructions
-				cg.Instructions = make([]byte, rng.Intn(4))
+				switch withInstr % 3 {
+				case 0:
+					cg.Components[0].Flags |= glyf.FlagWeHaveInstructions
+				case 1:
+					cg.Components[len(cg.Components)-1].Flags |= glyf.FlagWeHaveInstructions
+				default:
+					for j := range cg.Components {
+						cg.Components[j].Flags |= glyf.FlagWeHaveInstructions
+					}
+				}
+				withInstr++
+				cg.Instructions = make([]byte, 1+rng.Intn(4))
 				rng.Read(cg.Instructions)
 				g.Data = cg
 			}
